@@ -97,6 +97,14 @@ func runC16(c *Ctx, tier string) {
 	c16Thresholds(c, r)
 	c16Fermat(c, r)
 	c16FermatSchema(c, r)
+	// premise of every per-lint rule of this property: the verdict is computed on the
+	// object as parsed and on immutable tables — no lint method (any lint may run
+	// earlier in the same pass) writes memory reachable from the linted object or a
+	// package-level variable (C05 rules 1-2)
+	{
+		csP := BuildCensus(c)
+		c05Effects(c, r, csP, NewEffects(c))
+	}
 	r.Finish()
 }
 
